@@ -73,5 +73,8 @@ TResubset == IsEvent("resubset") /\ (Ev.same \/ Ev.flagged)
 TEverything == IsEvent("everything") /\ (Ev.same \/ Ev.flagged)
 
 TInit == l = 1
-TraceSpec == TInit /\ [][TFont \/ TSubset \/ TResubset \/ TEverything]_l
+\* a call sequence of Serializer.tla replayed on klippa's serializer: the recorder compares layout, sharing and error with
+\* the specification's expectation and reports a value (conforming bytes) or an error the specification also has
+TSerializer == IsEvent("serializer") /\ Ev.outcome \in {"value", "error"}
+TraceSpec == TInit /\ [][TFont \/ TSubset \/ TResubset \/ TEverything \/ TSerializer]_l
 =============================================================================
